@@ -232,6 +232,15 @@ func (tr *FnTr) contractCallInfo(x ssa.Value, f *calleeInfo, ct *FuncContract, a
 	name := ct.Name
 	pre := tr.st
 	ctx := tr.calleeCtxInfo(f, args, nil, pre, pre)
+	var calleeRec map[string]*SpecFunc
+	recInst := map[string]string{}
+	if len(ct.RecSpecs) > 0 {
+		calleeRec = map[string]*SpecFunc{}
+		for _, rs := range ct.RecSpecs {
+			calleeRec[rs.Name] = rs
+		}
+		ctx.calleeRec, ctx.recInst, ctx.recBase = calleeRec, recInst, ctx
+	}
 	for i, c := range ct.Requires {
 		if tr.top.refute {
 			break
@@ -333,6 +342,9 @@ func (tr *FnTr) contractCallInfo(x ssa.Value, f *calleeInfo, ct *FuncContract, a
 	}
 	tr.st = post
 	pctx := tr.calleeCtxInfo(f, args, results, post, pre)
+	if calleeRec != nil {
+		pctx.calleeRec, pctx.recInst, pctx.recBase = calleeRec, recInst, ctx
+	}
 	pctx.guard = post.Reach
 	for _, c := range ct.Ensures {
 		tr.vc.Assume(Implies(post.Reach, pctx.fact(c.E)))
